@@ -237,7 +237,7 @@ def gen_inputs(pid, tier, seed, extra_defs=(), extra_entries=()):
             rec = {"ty": eid, "val": val, "src": "json" if (i % 2 == 0 or prof.get("json_only")) else "ov", "grp": "start", "perm": False,
                    "auto": prof["auto"], "perms": perms}
             if prof.get("extras") and not coregen.has_deny(ty, pg.defs):
-                ex = coregen.add_extras(ty, val, pg.defs, rng)
+                ex = coregen.add_extras(ty, val, pg.defs, rng, poison=(rec["src"] == "ov"))
                 if ex != val:
                     rec["extras"] = [ex]
             recs.append(rec)
